@@ -462,6 +462,8 @@ class CuckooFilter:
 
     def _expand_logic(self, extra_fingerprint):
         """the logic to acutally expand the cuckoo filter"""
+        # keep the current table so that a failed expansion does not lose what is stored
+        previous = (self._buckets, self._cuckoo_capacity, self._inserted_elements)
         # get all the fingerprints
         fingerprints = self._setup_expand(extra_fingerprint)
 
@@ -469,6 +471,7 @@ class CuckooFilter:
             idx_1, idx_2 = self._indicies_from_fingerprint(finger)
             res = self._insert_fingerprint(finger, idx_1, idx_2)
             if res is not None:  # again, this *shouldn't* happen
+                self._buckets, self._cuckoo_capacity, self._inserted_elements = previous
                 msg = "The CuckooFilter failed to expand"
                 raise CuckooFilterFullError(msg)
 
